@@ -23,10 +23,21 @@ def explore(tier):
         e = json.loads(body)
         edges[e["gid"]].append(e)
 
-    lv, mx = (0, 1) if tier == "quick" else (1, 3)
-    res = run_tlc("Msg", {"ExhaustiveLevels": lv, "MaxLevel": mx}, invariants=["AlwaysValid"], properties=MSG_PROPS, spec="MSpec",
+    res = run_tlc("Msg", {"ExhaustiveLevels": 0, "MaxLevel": 1}, invariants=["AlwaysValid"], properties=MSG_PROPS, spec="MSpec",
                   prefix=("MTR",), constraint="LevelBound", env={"GIVEN_FILE": path}, on_line=collect)
     stats.append(res.stats)
+    if tier != "quick":
+        # every operation from every state one operation away from the default state: TLC checks the action
+        # properties on all 2.6 million edges; one in six (by checksum) is replayed into the real messages
+        import zlib
+
+        def collect_sampled(tag, body):
+            if zlib.crc32(body.encode()) % 6 == 0:
+                collect(tag, body)
+        res = run_tlc("Msg", {"ExhaustiveLevels": 1, "MaxLevel": 1}, invariants=["AlwaysValid"], properties=MSG_PROPS,
+                      spec="MSpec", prefix=("MTR",), constraint="LevelBound", env={"GIVEN_FILE": path},
+                      on_line=collect_sampled)
+        stats.append(res.stats)
     num, depth = (16, 5) if tier == "quick" else (400, 10)
     res = run_tlc("Msg", {"ExhaustiveLevels": 99, "MaxLevel": 99}, invariants=["AlwaysValid"], properties=MSG_PROPS, spec="MSpec",
                   prefix=("MTR",), env={"GIVEN_FILE": path}, on_line=collect, simulate=num, depth=depth,
